@@ -185,7 +185,9 @@ class M(Model):
     def objective(self, ep):
         s = ep.states[-1]
         h = self._hist(s)
-        if sorted(c for c in h if c != DEPOT) != list(range(1, self.N + 1)):
+        # completed = every customer served and the vehicle back at the depot (then no action is possible, so
+        # the last step was the legal return); anything else ended by an invalid move: no documented objective
+        if sorted(c for c in h if c != DEPOT) != list(range(1, self.N + 1)) or h[-1] != DEPOT:
             return None
         return -self._route_length(self._xy(s), h), 1e-5 * 2 * self.N
 
